@@ -635,8 +635,9 @@ htp_status_t htp_tx_req_process_body_data_ex(htp_tx_t *tx, const void *data, siz
             // Send data buffer to the decompressor.
             htp_gzip_decompressor_decompress(tx->connp->req_decompressor, &d);
 
-            if (data == NULL) {
-                // Shut down the decompressor, if we used one.
+            if ((data == NULL) && (len == 0)) {
+                // Shut down the decompressor, if we used one. (NULL data
+                // with a length is a gap in the body, not its end.)
                 htp_tx_req_destroy_decompressors(tx->connp);
             }
             break;
@@ -994,8 +995,9 @@ htp_status_t htp_tx_res_process_body_data_ex(htp_tx_t *tx, const void *data, siz
                 }
             }
 
-            if (data == NULL) {
-                // Shut down the decompressor, if we used one.
+            if ((data == NULL) && (len == 0)) {
+                // Shut down the decompressor, if we used one. (NULL data
+                // with a length is a gap in the body, not its end.)
                 htp_tx_res_destroy_decompressors(tx->connp);
             }
             break;
